@@ -66,7 +66,7 @@ PROPS = {
         module="OrbitModel.Properties.C04",
         theorems=["Orbit.C04.only_verified_same_database_entries_merged", "Orbit.C04.held_entries_unaffected",
                   "Orbit.C04.batch_merges_only_verified", "Orbit.C04.misaddressed_head_refused",
-                  "Orbit.C04.listed_entries_are_members", "Orbit.C04.pinned_foreign_entry_becomes_head", "Orbit.C04.load_hands_only_own_entries_to_join", "Orbit.C04.foreign_entry_came_back_through_load_before_the_fix", "Orbit.C04.fetched_entries_sit_at_the_address_of_their_content", "Orbit.C04.twin_of_a_genuine_entry_was_merged_before_the_fix"],
+                  "Orbit.C04.listed_entries_are_members", "Orbit.C04.pinned_foreign_entry_becomes_head", "Orbit.C04.load_hands_only_own_entries_to_join", "Orbit.C04.foreign_entry_came_back_through_load_before_the_fix", "Orbit.C04.fetched_entries_sit_at_the_address_of_their_content", "Orbit.C04.twin_of_a_genuine_entry_was_merged_before_the_fix", "Orbit.C04.author_check_steps_tied_to_go_text"],
         families=[("forge", 150, 4000, 10), ("multidb", 25, 400, 8)],
         corr_fields={"values", "heads", "idx", "len", "sync", "loadq", "rev"},
         nontrivial=lambda lines: sum(1 for l in lines if l.startswith("forged ") and " err" not in l) >= 1 and sum(1 for l in lines if l.startswith("op inject")) >= 1,
@@ -286,15 +286,15 @@ _TIE = ("Lean 4 theorems about a hand-written model + correspondence harness: th
         "property's L1 predicate on the implementation's own observations")
 MANIFEST_TEXT = {
     "C13": dict(
-        text="Kernel-checked theorems: the 16-bit record framing round-trips for every list of records that save accepts; save returns an error exactly when the header or an entry exceeds 65535 bytes; for every reachable log whose entries the access controller accepts, save either errors or produces bytes from which a fresh store rebuilds a log with the same entries, Values() and heads. A snapshot written WHILE the log grows (SaveSnapshot takes no lock and reads heads, length, entries in that order) is proved to load back as the state at the first read; with the reads reordered it would be written without error and refused by the loader (proved). The pinned tree's silent length wrap-around (record of 65536 bytes written with length 0) is a proved witness replayed on the real store before the fix: commits (F9a-c). The Go port's loader does not build the log from the records: ipfslog.NewFromJSON ignores the entries it is given and fetches the ancestry of the recorded heads out of IPFS (read in the dependency; noted by a sub-agent); the model has both readings and the theorems are proved for both (loadFetching: on a node holding the blocks the fetch returns the log, and then the fresh store rebuilds the same entries, Values() and heads; a snapshot written while the log grew loads as the state at the first read with no proviso). The snapshot family saves on real stores (payloads around the 64 KiB limit) and loads into brand-new instances over the same block store. The snapshot route hands Join only entries of this log that Join accepts (proved; finding F47, fix: commit - the loader fetched the log again through every link and joined all of it: a snapshot saved without error that could not be loaded, or a foreign entry back as a head: decide-checked witness; the forge family now saves and loads snapshots and runs under this property's reconstruct predicate; the loader's three tests are regenerated from the Go text).",
+        text="Kernel-checked theorems: the 16-bit record framing round-trips for every list of records that save accepts; save returns an error exactly when the header or an entry exceeds 65535 bytes; for every reachable log whose entries the access controller accepts, save either errors or produces bytes from which a fresh store rebuilds a log with the same entries, Values() and heads. A snapshot written WHILE the log grows (SaveSnapshot takes no lock and reads heads, length, entries in that order) is proved to load back as the state at the first read; with the reads reordered it would be written without error and refused by the loader (proved). The pinned tree's silent length wrap-around (record of 65536 bytes written with length 0) is a proved witness replayed on the real store before the fix: commits (F9a-c). The Go port's loader does not build the log from the records: ipfslog.NewFromJSON ignores the entries it is given and fetches the ancestry of the recorded heads out of IPFS (read in the dependency; noted by a sub-agent); the model has both readings and the theorems are proved for both (loadFetching: on a node holding the blocks the fetch returns the log, and then the fresh store rebuilds the same entries, Values() and heads; a snapshot written while the log grew loads as the state at the first read with no proviso). The snapshot family saves on real stores (payloads around the 64 KiB limit) and loads into brand-new instances over the same block store. The snapshot route hands Join only entries of this log that Join accepts (proved; finding F47, fix: commit - the loader fetched the log again through every link and joined all of it: a snapshot saved without error that could not be loaded, or a foreign entry back as a head: decide-checked witness; the forge family now saves and loads snapshots and runs under this property's reconstruct predicate; the loader's three tests are regenerated from the Go text). A snapshot loaded on a store that already holds the newest entries brings what lies below them (finding F62, fix: commit - the 'held' step of Load was missing in the snapshot path; `restartsnap pre=N` in the snapshot family; the step is part of the regenerated order).",
         note="Trusted: Lean kernel + standard axioms; the JSON codec of one entry is a parameter with a left inverse (sampled by the harness); the unixfs file layer is a fake that stores files whole; the fetcher's contract (it returns the ancestry of the heads it is given, from blocks the node holds) is a hypothesis of the fetching-loader theorems - a snapshot is NOT self-contained in this port: a node without the blocks needs the network to load it.",
         technique="Lean 4 proof (codec round-trip by induction; rebuilt log joins to the same entries/order/heads) with differential correspondence on real save/load"),
     "C14": dict(
-        text="Kernel-checked theorems over a segment-list model of Go's path.Join/Clean: the address answered names the manifest the inputs were hashed into; with an injective manifest hash different (name, type, access controller) give different addresses; every answered address prints and parses back to itself; the accepted names are characterised exactly; over a model of Create/Open written in the order of the Go code: creating over an existing local database is refused unless overwrite, a local-only open of an unknown database is refused, an open yields the recorded type and write list whatever options are passed, and what Create returned is what every later Open returns on this and on any other instance. The pinned tree answered another database's address for a climbing name (decide-checked witness, replayed on the real code before the fix: commit). Whatever string Open accepts as an address prints as an address of the same database (address.Parse refuses a path that climbs out of its root: finding F28, fix: commit, with a decide-checked witness of the old split). The address family compares DetermineAddress/Create/Open/Parse on 2-3 real peers with the model over adversarial names, store types, write lists and user-supplied address spellings. Behind the hash of a manifest only the name recorded in it opens (Open model with the name test: a misnamed address is refused whatever the options, the address Create returns always passes; finding F52, fix: commit - any path behind a manifest hash opened as a database of its own; the driver requires the address of every opened store to be the address its root's manifest was created for). A database obtained through Open exists locally from then on (proved on the Open model: a later local-only Open succeeds with the same type and write list; finding F53, fix: commit - only Create used to record it), and Create/Open no longer write into the caller's options (finding F54, fix: commit - 'open or create' left Overwrite=true behind; `reuseopts` step in the address family).",
+        text="Kernel-checked theorems over a segment-list model of Go's path.Join/Clean: the address answered names the manifest the inputs were hashed into; with an injective manifest hash different (name, type, access controller) give different addresses; every answered address prints and parses back to itself; the accepted names are characterised exactly; over a model of Create/Open written in the order of the Go code: creating over an existing local database is refused unless overwrite, a local-only open of an unknown database is refused, an open yields the recorded type and write list whatever options are passed, and what Create returned is what every later Open returns on this and on any other instance. The pinned tree answered another database's address for a climbing name (decide-checked witness, replayed on the real code before the fix: commit). Whatever string Open accepts as an address prints as an address of the same database (address.Parse refuses a path that climbs out of its root: finding F28, fix: commit, with a decide-checked witness of the old split). The address family compares DetermineAddress/Create/Open/Parse on 2-3 real peers with the model over adversarial names, store types, write lists and user-supplied address spellings. Behind the hash of a manifest only the name recorded in it opens (Open model with the name test: a misnamed address is refused whatever the options, the address Create returns always passes; finding F52, fix: commit - any path behind a manifest hash opened as a database of its own; the driver requires the address of every opened store to be the address its root's manifest was created for). A database obtained through Open exists locally from then on (proved on the Open model: a later local-only Open succeeds with the same type and write list; finding F53, fix: commit - only Create used to record it), and Create/Open no longer write into the caller's options (finding F54, fix: commit - 'open or create' left Overwrite=true behind; `reuseopts` step in the address family; F59, fix: commit - DetermineAddress and the typed front ends still did: one access controller parameters value handed to two peers gave the second database the first peer's id as its default writer, and options that had been through Log() made a plain Open create; `reuseac`, `reusefront` steps).",
         note="Trusted: Lean kernel + standard axioms; injectivity of the manifest CID (hash + dag-cbor) is a hypothesis; the Create/Open model is hand-written (its abstractions are listed at the top of Model/OpenCreate.lean) and run against the real instance on every create/open of the address family; only the default ipfs access controller is modelled.",
         technique="Lean 4 proof (path cleaning lemmas, parse/print inverse, injectivity) with differential correspondence over adversarial names"),
     "C15": dict(
-        text="Kernel-checked theorems: the effective limit (n <= 0 falls back to MaxHistory, non-positive means all); Join(size) panics exactly when size exceeds the length and otherwise keeps the newest size entries in order; for EVERY chain length and EVERY limit, Load(n) on a fresh store with one cached head lists exactly the newest min(n,T) entries oldest first (all for n <= 0) even when the fetcher over-fetches; loading one head never panics, for EVERY log the store may hold (closed or with holes, fully or partially loaded), every fetched log and every amount: the merge asks for no trim and the trim is only asked for once the listing is longer than the amount (finding F30, fix: commit - the estimate-based trim panicked on logs with holes: decide-checked witness, reproduced by Load(n) on an open, partially loaded store). The pinned tree's panic (n > total) and emptied log (n = 0) are decide-checked and were replayed on the real store before the fix: commit. The limit family loads real multi-writer logs with every boundary limit, lets partially loaded stores replicate, write and load again ('load more'), and checks count, order, newest and most-recent-n on the listing — after a 'load more' too: an unlimited Load of a cached head into ANY log satisfying the log invariant lists what the log held plus everything fetched (proved; finding F36, fix: commit — Join, handed the whole fetched log, stopped at the held head and merged nothing below it: decide-checked witness, replayed on the real store). Entries Load leaves out do not count against the limit: the refetch loop ends, for every fetcher that returns at most what it is asked for, on a fetch that keeps at least n entries or is the whole log (proved; finding F57, fix: commit - one fetch of length n kept fewer: decide-checked witness; the limit family adds a hand-made entry whose parent belongs to another log).",
+        text="Kernel-checked theorems: the effective limit (n <= 0 falls back to MaxHistory, non-positive means all); Join(size) panics exactly when size exceeds the length and otherwise keeps the newest size entries in order; for EVERY chain length and EVERY limit, Load(n) on a fresh store with one cached head lists exactly the newest min(n,T) entries oldest first (all for n <= 0) even when the fetcher over-fetches; loading one head never panics, for EVERY log the store may hold (closed or with holes, fully or partially loaded), every fetched log and every amount: the merge asks for no trim and the trim is only asked for once the listing is longer than the amount (finding F30, fix: commit - the estimate-based trim panicked on logs with holes: decide-checked witness, reproduced by Load(n) on an open, partially loaded store). The pinned tree's panic (n > total) and emptied log (n = 0) are decide-checked and were replayed on the real store before the fix: commit. The limit family loads real multi-writer logs with every boundary limit, lets partially loaded stores replicate, write and load again ('load more'), and checks count, order, newest and most-recent-n on the listing — after a 'load more' too: an unlimited Load of a cached head into ANY log satisfying the log invariant lists what the log held plus everything fetched (proved; finding F36, fix: commit — Join, handed the whole fetched log, stopped at the held head and merged nothing below it: decide-checked witness, replayed on the real store). Entries Load leaves out do not count against the limit: the refetch loop ends, for every fetcher that returns at most what it is asked for, on a fetch that keeps at least n entries or is the whole log (proved; finding F57, fix: commit - one fetch of length n kept fewer: decide-checked witness; the limit family adds a hand-made entry whose parent belongs to another log). The refetch loop does not walk through a foreign log again and reports an entry once per Load (finding F63, fix: commit - found by a reviewer of the repairs, demonstrated by its test under corpus/C15: the harness's foreign logs are too short to show the quadratic re-reporting).",
         note="Partial: for several cached heads the count/order/newest statement is checked on the implementation and on decide-checked instances, not proved in general; the bounded fetcher is a parameter with a stated contract.",
         technique="Lean 4 proof (trim/Join size lemmas, chain induction) with differential correspondence over boundary limits"),
     "C16": dict(
@@ -314,7 +314,7 @@ MANIFEST_TEXT = {
         note="Trusted: Lean kernel + standard axioms; the bus model (broadcast to every listener; which listeners filter on what) is hand-written from base_store.go and validated by the multidb family; runtime delivery timing of the libp2p eventbus is sampled, not proved.",
         technique="Lean 4 proof (listener filter case analysis over a broadcast model) with differential correspondence on multi-database instances"),
     "C10": dict(
-        text="Kernel-checked theorems: for every cancellation-free history mixing rejected and foreign heads with valid ones in any position and any fetch order, re-announcing heads and running the replicator to quiescence lists every accepted reachable entry and no rejected one; a mixed batch merges every acceptable single-entry log whatever else it contains; a head the access controller refuses is never handed to the replicator (so a non-writer cannot start a fetch that never ends — finding F18, repaired). Pinned-tree witnesses (batch aborted, valid entries never refetched) are decide-checked and were replayed on the real store before the fix: commit. The forge family checks on the real stores that after an honest re-announcement every acknowledged write is listed everywhere. A parent that is an entry-shaped block without a clock is a failed fetch, not a dead process (finding F44, fix: commit; `badparent=noclock` behind a colluding writer's entry in the forge family: the entry arrives, later honest writes replicate, the replica restarts).",
+        text="Kernel-checked theorems: for every cancellation-free history mixing rejected and foreign heads with valid ones in any position and any fetch order, re-announcing heads and running the replicator to quiescence lists every accepted reachable entry and no rejected one; a mixed batch merges every acceptable single-entry log whatever else it contains; a head the access controller refuses is never handed to the replicator (so a non-writer cannot start a fetch that never ends — finding F18, repaired). Pinned-tree witnesses (batch aborted, valid entries never refetched) are decide-checked and were replayed on the real store before the fix: commit. The forge family checks on the real stores that after an honest re-announcement every acknowledged write is listed everywhere. A parent that is an entry-shaped block without a clock is a failed fetch, not a dead process (finding F44, fix: commit; `badparent=noclock` behind a colluding writer's entry in the forge family: the entry arrives, later honest writes replicate, the replica restarts). An ERROR while checking an entry's address (the write of its canonical form failed) is an error, not the verdict 'wrong address': the entry stays to be retried (finding F64, fix: commit - found by a reviewer of the repairs, demonstrated by its test under corpus/C10).",
         note="Liveness is proved for the canonical fair scheduler (drain) with explicit fuel, safety (closure invariant, 'at rest means complete') for every schedule; the replicator model is hand-written and tied end-to-end (its bookkeeping counters are printed, not yet replayed step by step).",
         technique="Lean 4 proof (transition-system invariants + termination measure) with differential correspondence on adversarial announcements"),
     "C11": dict(
@@ -334,11 +334,11 @@ MANIFEST_TEXT = {
         note="Trusted: Lean kernel + standard axioms; unforgeability of secp256k1 signatures and 'identity block genuine' are represented by measured flags; the hand-written model of Join/CanAppend/Sync validated by correspondence; the replicator's log-id filter is a hypothesis of the reachability relation (its code is exercised by the harness).",
         technique="Lean 4 proof (membership invariant over adversarial reachability) with differential correspondence on forged entries"),
     "C04": dict(
-        text="Kernel-checked theorems: whatever log is handed to Join, everything it adds passed the access check, verifies and carries this database's id, and nothing held is lost; the same for a whole batch with rejected logs; a wrongly addressed head aborts Sync; every listed entry is a member. The dependency's Join still merges foreign heads (decide-checked witness); the fix: commit in the replicator keeps such entries away from Join, and the harness checks on the real code that no tampered / foreign entry is ever listed and that Len() matches the listing. The reload route (Load after a restart) hands only this log's entries to Join (proved; before the fix: commit F27 an entry of another log named in a writer's refs came back as a head: decide-checked witness, replayed on the real store). What the reload and snapshot routes hand to Join sits at the address of its content (proved; finding F46, fix: commit - a genuine entry written again with other bytes was merged a second time under the new address by the replicator, Load and LoadFromSnapshot: decide-checked witness; `reencode` recipe behind a colluding writer's entry, live, after a restart and through a snapshot).",
+        text="Kernel-checked theorems: whatever log is handed to Join, everything it adds passed the access check, verifies and carries this database's id, and nothing held is lost; the same for a whole batch with rejected logs; a wrongly addressed head aborts Sync; every listed entry is a member. The dependency's Join still merges foreign heads (decide-checked witness); the fix: commit in the replicator keeps such entries away from Join, and the harness checks on the real code that no tampered / foreign entry is ever listed and that Len() matches the listing. The reload route (Load after a restart) hands only this log's entries to Join (proved; before the fix: commit F27 an entry of another log named in a writer's refs came back as a head: decide-checked witness, replayed on the real store). What the reload and snapshot routes hand to Join sits at the address of its content (proved; finding F46, fix: commit - a genuine entry written again with other bytes was merged a second time under the new address by the replicator, Load and LoadFromSnapshot: decide-checked witness; `reencode` recipe behind a colluding writer's entry, live, after a restart and through a snapshot). The steps of VerifyEntryAuthor are regenerated from the Go text on every run, in order: the low-S rule applies after the identity's type has been looked at, to orbitdb identities only (finding F65, fix: commit - applied first, it refused every entry of an identity signing with another scheme; reviewer's test under corpus/C04).",
         note="Trusted: Lean kernel + standard axioms; content addressing (HashDet); the mapping from wire-form mutations to the model's flags is measured by the harness with the real Verify / re-encode.",
         technique="Lean 4 proof (Join adds only acceptable entries; monotonicity) with differential correspondence on tampered entries"),
     "C05": dict(
-        text="Kernel-checked theorem over explicit persistence-effect traces: for every valid history and EVERY prefix of its effect trace (every crash point), recovery returns every acknowledged write and every entry reported as replicated, only entries whose block was written, an ancestry-closed set, listed exactly as the pre-crash listing restricted to it; mechanism: the cached heads cover the log at every reachable store state. The harness restarts real instances over the same keystore and cache at random moments, compares the recovered state and identity, and evaluates 'cached heads cover the log' after every step of every scenario (the invariant from which every crash point follows). A replication round never forgets a cached head the log does not hold (proved for every store state and every batch: a store opened with Load(n) holds only part of what its cache points to); before the fix: commit F26 it did (decide-checked witness, replayed on the real store), and the limit family now lets partially loaded stores replicate and write before the final unlimited load, which must bring back everything ever listed or acknowledged. After a restart Load hands Join only entries of this log that Join accepts (proved), so a refused entry in the ancestry no longer costs the valid entries above it (finding F29, fix: commit, decide-checked witness); the forge family (forged, tampered, foreign entries behind colluding writers) restarts its replicas and is run under this property's recover predicate too. A reload succeeds only if every cached head came back from the fetcher (proved); before the fix: commit F32 a Load whose context had ended reported success over an empty log (decide-checked witness; the reload family restarts replicas under an ended context and requires the error). A local write never forgets a cached local head the log does not hold and never shrinks what the cache reaches (proved for every store state); before the fix: commit F33 a write on a store that had loaded an older snapshot replaced _localHeads by the new entry alone and the acknowledged writes made after the snapshot were gone at the next restart (decide-checked witness; the snapshot family writes after loading an older snapshot and restarts).",
+        text="Kernel-checked theorem over explicit persistence-effect traces: for every valid history and EVERY prefix of its effect trace (every crash point), recovery returns every acknowledged write and every entry reported as replicated, only entries whose block was written, an ancestry-closed set, listed exactly as the pre-crash listing restricted to it; mechanism: the cached heads cover the log at every reachable store state. The harness restarts real instances over the same keystore and cache at random moments, compares the recovered state and identity, and evaluates 'cached heads cover the log' after every step of every scenario (the invariant from which every crash point follows). A replication round never forgets a cached head the log does not hold (proved for every store state and every batch: a store opened with Load(n) holds only part of what its cache points to); before the fix: commit F26 it did (decide-checked witness, replayed on the real store), and the limit family now lets partially loaded stores replicate and write before the final unlimited load, which must bring back everything ever listed or acknowledged. After a restart Load hands Join only entries of this log that Join accepts (proved), so a refused entry in the ancestry no longer costs the valid entries above it (finding F29, fix: commit, decide-checked witness); the forge family (forged, tampered, foreign entries behind colluding writers) restarts its replicas and is run under this property's recover predicate too. A reload succeeds only if every cached head came back from the fetcher (proved); before the fix: commit F32 a Load whose context had ended reported success over an empty log (decide-checked witness; the reload family restarts replicas under an ended context and requires the error). A local write never forgets a cached local head the log does not hold and never shrinks what the cache reaches (proved for every store state); before the fix: commit F33 a write on a store that had loaded an older snapshot replaced _localHeads by the new entry alone and the acknowledged writes made after the snapshot were gone at the next restart (decide-checked witness; the snapshot family writes after loading an older snapshot and restarts). A Load that fails because the block of a cached head is gone leaves what the other heads led to readable (proved on the model of the failed load, loadReadable; finding F61, fix: commit - it returned before the view was rebuilt; reload scenario with an immediately-not-found block in the corpus, `readable` predicate on the first observation after every restart).",
         note="Partial where the truth is in the runtime: durability/atomicity of each datastore call is the property's own assumption; leveldb is replaced by in-memory datastores; crash points are covered by the theorem plus the per-step invariant check rather than by killing processes.",
         technique="Lean 4 proof (effect-trace prefixes, durable-log invariant) with differential correspondence including restarts"),
     "C02": dict(
